@@ -285,8 +285,9 @@ class Run:
         ev = dict(property_id=self.prop, tier=self.tier, seed=int(self.seed), level="model_checking",
                   coverage=cov, assumptions=self.assumptions, wall_s=round(wall, 2),
                   violations=len(self.violations))
-        (VERIF / "evidence").mkdir(exist_ok=True)
-        (VERIF / "evidence" / (self.prop + ".json")).write_text(json.dumps(ev, indent=1, default=str) + "\n")
+        evdir = Path(os.environ.get("AOVERIF_EVIDENCE_DIR", str(VERIF / "evidence")))      # seedtool wdetect redirects this
+        evdir.mkdir(exist_ok=True)
+        (evdir / (self.prop + ".json")).write_text(json.dumps(ev, indent=1, default=str) + "\n")
         status = "VIOLATED" if self.violations else "held"
         print("%s %s tier=%s seed=%d states=%d transitions=%d replayed=%d known=%d wall=%.1fs" %
               (self.prop, status, self.tier, self.seed, self.states, self.transitions, self.traces,
